@@ -406,6 +406,165 @@ def _own_map(model, fn, kw, sub):
                    f"to {sorted(map(str, got)) if got else r}")
 
 
+def _layout_kind(fn) -> Optional[str]:
+    """'blocks' (hstack of whole-mesh vstack blocks), 'masked' (blocks over
+    subsets of the cells), 'strided', or None (not recognised) for a
+    _uniform that builds its connectivity itself"""
+    reps = [n for n in walk_no_nested(fn.node) if isinstance(n, ast.Call)
+            and isinstance(n.func, ast.Name) and n.func.id == "replace"
+            and any(k.arg == "t" for k in n.keywords)]
+    if not reps:
+        return None
+    kw = {k.arg: k.value for k in reps[0].keywords}
+    tval = kw["t"]
+    if isinstance(tval, ast.Name):
+        defs = [n for n in walk_no_nested(fn.node)
+                if isinstance(n, ast.Assign)
+                and src(n.targets[0]) == tval.id]
+        defs.sort(key=lambda n: n.lineno)
+        tval2 = defs[-1].value if defs else None
+    else:
+        tval2 = tval
+    blocks = (isinstance(tval2, ast.Call)
+              and src(tval2.func) == "np.hstack"
+              and isinstance(tval2.args[0], ast.Tuple)
+              and all(isinstance(e, ast.Call)
+                      and src(e.func) == "np.vstack"
+                      for e in tval2.args[0].elts))
+    strided = any(isinstance(n, ast.Assign) and isinstance(
+        n.targets[0], ast.Subscript) and isinstance(tval, ast.Name)
+        and src(n.targets[0].value) == tval.id and any(
+            isinstance(s, ast.Slice) and s.step is not None
+            for s in ast.walk(n.targets[0].slice))
+        for n in walk_no_nested(fn.node))
+    masked = blocks and any(
+        isinstance(s, ast.Subscript) and isinstance(s.slice, ast.Tuple)
+        for e in tval2.args[0].elts for s in ast.walk(e))
+    if blocks:
+        return "masked" if masked else "blocks"
+    return "strided" if strided else None
+
+
+def _delegate(model, rep, c, fn):
+    """_uniform of a class that refines through another mesh class
+    (second-order meshes).  The method is interpreted on a stub mesh: which
+    class does the refinement, and do the named subdomains reach it?  If the
+    result carries no subdomains, Mesh.refined applies the generic
+    'k + j*nt' propagation to it - right only if the refining class stores
+    the children in whole-mesh blocks."""
+    R2 = "C12-R2"
+    cons = f"{c.name}._uniform:delegated-layout"
+    fm = model.cls("skfem.mesh.mesh", "Mesh").methods["from_mesh"]
+    # from_mesh builds cls(doflocs=..., t=...): no tags, same cell numbering
+    ctor = [n for n in walk_no_nested(fm.node) if isinstance(n, ast.Call)
+            and src(n.func) == "cls"]
+    if len(ctor) != 1:
+        raise AnalysisError("Mesh.from_mesh: constructor call not found")
+    ckw = {k.arg: k.value for k in ctor[0].keywords}
+    if "_subdomains" in ckw or "subdomains" in ckw:
+        raise AnalysisError("Mesh.from_mesh now carries subdomains: "
+                            "delegation model out of date")
+    if "t" not in ckw or "mesh.t" not in src(ckw["t"]):
+        raise AnalysisError("Mesh.from_mesh: connectivity not taken from "
+                            "the given mesh")
+    SELF_SUB = "SUB(self)"
+
+    class M:
+        """stub mesh: class name, subdomains, refinement history"""
+        def __init__(self, cname, sub, hist):
+            self.cname, self.sub, self.hist = cname, sub, hist
+
+        def skv_getattr(self, name):
+            if name in ("_subdomains", "subdomains"):
+                return self.sub
+            if name in ("refined", "_uniform"):
+                def refined(a, k, n, direct=(name == "_uniform")):
+                    if a or k:
+                        raise Unsupported("refined with arguments")
+                    rcs = [x for x in model.all_classes()
+                           if x.name == self.cname
+                           and x.path.startswith("skfem/mesh/")]
+                    rf = rcs[0].find_method("_uniform") if len(rcs) == 1 \
+                        else None
+                    if rf is None:
+                        raise Unsupported(f"{self.cname}._uniform")
+                    kind = _layout_kind(rf)
+                    own = [kk.value for nn in walk_no_nested(rf.node)
+                           if isinstance(nn, ast.Call)
+                           and src(nn.func) == "replace"
+                           for kk in nn.keywords if kk.arg == "_subdomains"]
+                    drops = not own or all(isinstance(v, ast.Constant)
+                                           and v.value is None for v in own)
+                    if self.sub is None or (direct and drops):
+                        # _uniform called directly on a class that leaves
+                        # the subdomains to Mesh.refined: they are lost
+                        sub = None
+                    else:
+                        # the refining class maps them itself (own map,
+                        # verified separately) or leaves them to the
+                        # generic propagation
+                        sub = ("refined-by", self.cname, self.sub)
+                    return M(self.cname, sub,
+                             self.hist + [(self.cname, kind,
+                                           self.sub is not None)])
+                return PyFunc(refined)
+            raise Unsupported("mesh." + name)
+
+    def from_mesh(args, kwargs, node):
+        if len(args) == 1 and isinstance(args[0], M) and not kwargs and \
+                isinstance(node.func, ast.Attribute) and isinstance(
+                    node.func.value, ast.Name):
+            return M(node.func.value.id, None, list(args[0].hist))
+        raise Unsupported("from_mesh call form")
+
+    def hook(interp, name, args, kwargs, node):
+        if name.endswith("replace") and args and isinstance(args[0], M):
+            extra = set(kwargs) - {"_subdomains"}
+            if extra:
+                raise Unsupported(f"replace({sorted(extra)})")
+            return M(args[0].cname, kwargs.get("_subdomains", args[0].sub),
+                     list(args[0].hist))
+        return NotImplemented
+    me = M(c.name, SELF_SUB, [])
+    try:
+        it = Interp(model, call_hook=hook)
+        it.overrides[fm.qualname] = PyFunc(from_mesh)
+        res = it.call(fn, [], {}, self_obj=me)
+    except (Unsupported, Raised) as e:
+        raise AnalysisError(f"{c.name}._uniform (delegating): {e}")
+    if not isinstance(res, M) or len(res.hist) != 1:
+        raise AnalysisError(f"{c.name}._uniform: exactly one delegated "
+                            f"refinement expected")
+    rcls, kind, had_sub = res.hist[0]
+    if kind is None:
+        raise AnalysisError(f"{rcls}._uniform: connectivity construction "
+                            f"not recognised")
+    if res.sub is None:
+        if kind == "blocks":
+            rep.ok(R2, cons, f"refines through {rcls}, whose children are "
+                   f"stored in whole-mesh blocks; the result carries no "
+                   f"subdomains, so Mesh.refined's generic propagation "
+                   f"applies and is right")
+        else:
+            rep.fail(R2, fn.path, fn.short(), cons,
+                     f"refines through {rcls} but the named subdomains "
+                     f"do not travel with it (from_mesh drops them): the "
+                     f"result has none, Mesh.refined then applies the "
+                     f"generic 'k + j*nt' propagation, while the children "
+                     f"of {rcls}._uniform are stored in {kind} blocks "
+                     f"(subsets of the cells per block) - named subdomains "
+                     f"end up on other cells", fn.lineno)
+    elif res.sub == ("refined-by", rcls, SELF_SUB):
+        rep.ok(R2, cons, f"hands its subdomains to {rcls}, which "
+               f"propagates them with its own map, and takes the result "
+               f"over (from_mesh keeps the cell numbering)")
+    else:
+        rep.fail(R2, fn.path, fn.short(), cons,
+                 f"the returned mesh carries the subdomains {res.sub!r}: "
+                 f"not those of this mesh propagated by the refining "
+                 f"class {rcls}", fn.lineno)
+
+
 def _r2_layout(model, rep):
     R2 = "C12-R2"
     # which _uniform leave the subdomains to the generic propagation?
@@ -417,7 +576,10 @@ def _r2_layout(model, rep):
                 and isinstance(n.func, ast.Name) and n.func.id == "replace"
                 and any(k.arg == "t" for k in n.keywords)]
         if not reps:
-            continue            # delegates (second-order classes)
+            if c.name == "Mesh":
+                continue        # abstract: raises NotImplementedError
+            _delegate(model, rep, c, fn)
+            continue
         call = reps[0]
         kw = {k.arg: k.value for k in call.keywords}
         sub = kw.get("_subdomains")
@@ -916,7 +1078,20 @@ _HE = "skfem/mesh/mesh_hex_1.py"
 _TE = "skfem/mesh/mesh_tet_1.py"
 _LI = "skfem/mesh/mesh_line_1.py"
 _ME = "skfem/mesh/mesh.py"
+_T2 = "skfem/mesh/mesh_tet_2.py"
 MUTANTS = [
+    ("second-order tetrahedra refine without handing over the subdomains",
+     (_T2, "        m = replace(MeshTet1.from_mesh(self),\n"
+      "                    _subdomains=self._subdomains).refined()\n"
+      "        return replace(MeshTet2.from_mesh(m), _subdomains="
+      "m._subdomains)",
+      "        return MeshTet2.from_mesh(MeshTet1.from_mesh(self).refined())"),
+     "C12-R2"),
+    ("second-order tetrahedra keep their unrefined subdomains",
+     (_T2, "        return replace(MeshTet2.from_mesh(m), _subdomains="
+      "m._subdomains)",
+      "        return replace(MeshTet2.from_mesh(m), _subdomains="
+      "self._subdomains)"), "C12-R2"),
     ("line refinement numbers the midpoints from max(t) + 1",
      (_LI, "        newt[0, 1::2] = p.shape[1] + np.arange(t.shape[1])",
       "        newt[0, 1::2] = np.max(t) + 1 + np.arange(t.shape[1])"),
@@ -1005,6 +1180,13 @@ MUTANTS = [
       "        has_boundaries = self.boundaries is None\n"), "C12-R4"),
 ]
 TWINS = [
+    ("second-order triangles hand their subdomains to MeshTri1 as well",
+     ("skfem/mesh/mesh_tri_2.py",
+      "        return MeshTri2.from_mesh(MeshTri1.from_mesh(self).refined())",
+      "        m = replace(MeshTri1.from_mesh(self),\n"
+      "                    _subdomains=self._subdomains).refined()\n"
+      "        return replace(MeshTri2.from_mesh(m), _subdomains="
+      "m._subdomains)")),
     ("quadrilateral facet table filled row by row in one slot order",
      ("skfem/mesh/mesh_quad_1.py",
       "            new_facets[1, t2f[0]] = m.t2f[0, ix1]\n"
